@@ -33,6 +33,19 @@ Theorem c18_terminal_local : forall idl s log, reach idl s log ->
 Proof. exact terminal_local_proof. Qed.
 Print Assumptions c18_terminal_local.
 
+(* double removal (the subscriber's own cancel and dispatch both call removeSub for one id): removing
+   an id that is no longer in the table changes nothing and starts the close flow only if the table
+   is empty -- never under a sibling.  Together with c18_conns_drain / c18_cancel_isolated_partial
+   (the run Proofs.ex_double_remove satisfies [safe_run]).  Non-vacuity: Proofs.ex_double_remove. *)
+Theorem c18_double_remove_noop : forall s c x w s' e,
+  cns s c = Some x -> c_rl x = RLRemove w -> (forall i, ~ In (w, i) (c_subs x)) ->
+  step s (ARLRemove c) = Some (s', e) ->
+  e = [] /\ (forall j, pc s' j = pc s j) /\ (forall c', c' <> c -> cns s' c' = cns s c')
+  /\ exists x', cns s' c = Some x' /\ c_subs x' = c_subs x /\ c_closed x' = c_closed x /\ c_dead x' = c_dead x
+               /\ (c_rl x' = RLClose -> c_subs x = []).
+Proof. exact double_remove_noop_proof. Qed.
+Print Assumptions c18_double_remove_noop.
+
 (* two subscriptions are registered on one connection only if their option tuples are equal
    (and equal to the tuple the connection was dialled for) *)
 Theorem c18_shared_iff_same_key : forall idl s log, reach idl s log ->
